@@ -1,7 +1,528 @@
-import Model.Variation
+import Proofs.Lemmas.VarProgress
 /-!
-# C04 (placeholder until the proof agent's file arrives)
+# C04: the random generator, the five mutation kinds and crossover produce well-formed genomes
+
+`Model/Variation.lean` (`Bingo.Var`) is the executable port of `agraph/generator.py`,
+`component_generator.py`, `mutation.py`, `crossover.py`; every operation is a pure function of
+(configuration, parent stack(s), list of random draws) in the monad
+`M α = List Nat → Res (α × List Nat)`.
+
+Standing hypotheses:
+* `CfgOK cfg` (decidable): every enabled operator is an operator (non-terminal) node of the arity
+  tables, and `1 ≤ cfg.nLoad` (bingo's constructor checks `num_initial_load_statements ≥ 1`);
+* `WF.WFGenome cfg.D cfg.ops s`: the stack is non-empty, VARIABLE rows load an existing column,
+  operator rows use an enabled operator and reference only earlier rows (terminal rows may also be
+  CONSTANT or INTEGER).
+
+Contents:
+1. `gen_wf` and the component-generator building blocks;
+2. `command_wf`, `node_wf`, `param_wf` (each replaces exactly one row: `*_one_row`);
+3. `prune_wf`; 4. `crossover_wf`; 5. `fork_wf` (with the post-conditions of its three phases);
+6. `mutate_wf`;
+7. `*_draws_consumed`: the returned draw list is a suffix of the given one (unconditionally), and
+   `draw*_in_bounds`: an `ok` draw is the head of the list and lies in the requested range;
+8. progress: for which rows the rejection loops of command / node mutation can exit
+   (`command_progress_iff`, `node_progress_iff`, closed forms, `*_stuck`), including the degenerate
+   families in which the real loop never exits; the loop of parameter mutation can always exit on a
+   well-formed parent (`paramLoop_progress`).  The other operations have no unbounded loop (the model
+   functions are structurally recursive; `_get_arity_operator` gives up after 100 attempts);
+9. non-vacuity `example`s (by `decide`).
+
+Not stated here:
+* "the operators never modify their parents" holds by construction: the model functions are pure, the
+  parent is an argument and is not returned;
+* genetic age of children and the `fit_set` flag live on the `AGraph` objects, not on command stacks;
+  they are checked on the real objects by the differential-testing harness, not modelled here.
 -/
 namespace Bingo.C04
-theorem gen_consts_ok : Gen.Consts.problems = [] ∧ Gen.Consts.MAX_FORK_SIZE = 4 := by decide
+open Var VarLemmas
+
+variable {cfg : Config}
+
+/-! ## 1. generator -/
+
+/-- `random_terminal_command` returns a row that is fine at every position -/
+theorem randomTerminalCommand_rowOK {draws rest : List Nat} {c : Cmd}
+    (h : randomTerminalCommand cfg draws = .ok (c, rest)) (i : Nat) :
+    WF.rowOK cfg.D none (some cfg.ops) i c = true :=
+  ((post_randomTerminalCommand cfg draws c rest h).1).rowOK i
+
+/-- the parameters of `random_operator_command(i)` are drawn below `i`, the operator is enabled -/
+theorem randomOperatorCommand_params {i : Nat} {draws rest : List Nat} {c : Cmd}
+    (h : randomOperatorCommand cfg i draws = .ok (c, rest)) :
+    c.node ∈ cfg.ops ∧ 0 ≤ c.p1 ∧ c.p1 < i ∧ 0 ≤ c.p2 ∧ c.p2 < i := by
+  obtain ⟨⟨op, a, b, hop, ha, hb, rfl⟩, _⟩ := post_randomOperatorCommand cfg i draws c rest h
+  exact ⟨hop, by simp, by simpa using ha, by simp, by simpa using hb⟩
+
+theorem randomOperatorCommand_rowOK (hcfg : CfgOK cfg) {i : Nat} {draws rest : List Nat} {c : Cmd}
+    (h : randomOperatorCommand cfg i draws = .ok (c, rest)) :
+    WF.rowOK cfg.D none (some cfg.ops) i c = true :=
+  rowOK_iff_spec.mpr ((post_randomOperatorCommand cfg i draws c rest h).1.spec hcfg)
+
+/-- an operator command at row 0 is never `ok` (`np.random.randint(0)` raises) -/
+theorem randomOperatorCommand_zero_not_ok (draws : List Nat) (r : Cmd × List Nat) :
+    randomOperatorCommand cfg 0 draws ≠ .ok r :=
+  VarLemmas.randomOperatorCommand_zero_not_ok cfg draws r
+
+theorem randomCommand_rowOK (hcfg : CfgOK cfg) {i : Nat} {draws rest : List Nat} {c : Cmd}
+    (h : randomCommand cfg i draws = .ok (c, rest)) :
+    WF.rowOK cfg.D none (some cfg.ops) i c = true :=
+  ((post_randomCommand cfg i draws c rest h).1).rowOK hcfg
+
+/-- the rows `random_command(i)` can return, exactly -/
+theorem randomCommand_range (i : Nat) (c : Cmd) :
+    (∃ draws rest, randomCommand cfg i draws = .ok (c, rest)) ↔ IsFreshCommand cfg i c :=
+  VarLemmas.randomCommand_range cfg i c
+
+theorem gen_wf (hcfg : CfgOK cfg) {size : Nat} (hsize : 1 ≤ size) {draws rest : List Nat} {s : Stack}
+    (h : generate cfg size draws = .ok (s, rest)) :
+    WF.WFGenome cfg.D cfg.ops s ∧ s.length = size :=
+  (post_generate cfg hcfg size hsize draws s rest h).1
+
+/-! ## 2. command, node and parameter mutation -/
+
+/-- command mutation replaces one row by a row that is fine at that position -/
+theorem command_one_row (hcfg : CfgOK cfg) {parent child : Stack} {draws rest : List Nat}
+    (h : mutateCommand cfg parent draws = .ok (child, rest)) :
+    ∃ loc new, loc < parent.length ∧ WF.rowOK cfg.D none (some cfg.ops) loc new = true ∧
+      child = parent.set loc new :=
+  (post_mutateCommand cfg hcfg parent draws child rest h).1
+
+theorem command_wf (hcfg : CfgOK cfg) {parent child : Stack} {draws rest : List Nat}
+    (hwf : WF.WFGenome cfg.D cfg.ops parent)
+    (h : mutateCommand cfg parent draws = .ok (child, rest)) :
+    WF.WFGenome cfg.D cfg.ops child ∧ child.length = parent.length :=
+  ReplacesRow.wf (post_mutateCommand cfg hcfg parent draws child rest h).1 hwf
+
+/-- node mutation replaces one row by a row that is fine at that position -/
+theorem node_one_row (hcfg : CfgOK cfg) {parent child : Stack} {draws rest : List Nat}
+    (hwf : WF.WFGenome cfg.D cfg.ops parent)
+    (h : mutateNode cfg parent draws = .ok (child, rest)) :
+    ∃ loc new, loc < parent.length ∧ WF.rowOK cfg.D none (some cfg.ops) loc new = true ∧
+      child = parent.set loc new :=
+  (post_mutateNode cfg hcfg parent hwf draws child rest h).1
+
+/-- more precisely: a terminal row becomes a fresh terminal command with another node, an operator row
+keeps both parameters and gets another enabled operator -/
+theorem node_mutant (hcfg : CfgOK cfg) {parent child : Stack} {draws rest : List Nat}
+    (h : mutateNode cfg parent draws = .ok (child, rest)) :
+    ∃ loc old new, parent[loc]? = some old ∧ child = parent.set loc new ∧ new.node ≠ old.node ∧
+      ((Ops.isTerminal old.node = some true ∧ IsFreshTerminal cfg new) ∨
+       (Ops.isTerminal old.node = some false ∧ ∃ op ∈ cfg.ops, new = ⟨op, old.p1, old.p2⟩)) := by
+  obtain ⟨_, _, _, loc, old, new, _, _, _, hold, hm, rfl⟩ := mutateNode_ok_elim hcfg h
+  exact ⟨loc, old, new, hold, rfl, hm.1, hm.2⟩
+
+theorem node_wf (hcfg : CfgOK cfg) {parent child : Stack} {draws rest : List Nat}
+    (hwf : WF.WFGenome cfg.D cfg.ops parent)
+    (h : mutateNode cfg parent draws = .ok (child, rest)) :
+    WF.WFGenome cfg.D cfg.ops child ∧ child.length = parent.length :=
+  ReplacesRow.wf (post_mutateNode cfg hcfg parent hwf draws child rest h).1 hwf
+
+/-- parameter mutation returns the parent unchanged (no row has a parameter to mutate) or replaces one
+row by a row that is fine at that position -/
+theorem param_one_row {parent child : Stack} {draws rest : List Nat}
+    (hwf : WF.WFGenome cfg.D cfg.ops parent)
+    (h : mutateParameters cfg parent draws = .ok (child, rest)) :
+    child = parent ∨ ∃ loc new, loc < parent.length ∧
+      WF.rowOK cfg.D none (some cfg.ops) loc new = true ∧ child = parent.set loc new :=
+  (post_mutateParameters cfg parent hwf draws child rest h).1
+
+theorem param_wf {parent child : Stack} {draws rest : List Nat}
+    (hwf : WF.WFGenome cfg.D cfg.ops parent)
+    (h : mutateParameters cfg parent draws = .ok (child, rest)) :
+    WF.WFGenome cfg.D cfg.ops child ∧ child.length = parent.length := by
+  rcases (post_mutateParameters cfg parent hwf draws child rest h).1 with rfl | hr
+  · exact ⟨hwf, rfl⟩
+  · exact hr.wf hwf
+
+/-! ## 3. pruning -/
+
+theorem prune_wf {parent child : Stack} {draws rest : List Nat}
+    (hwf : WF.WFGenome cfg.D cfg.ops parent)
+    (h : pruneBranch cfg parent draws = .ok (child, rest)) :
+    WF.WFGenome cfg.D cfg.ops child ∧ child.length = parent.length :=
+  (post_pruneBranch cfg parent hwf draws child rest h).1
+
+/-! ## 4. crossover -/
+
+theorem crossover_wf {p1 p2 c1 c2 : Stack} {draws rest : List Nat}
+    (h1 : WF.WFGenome cfg.D cfg.ops p1) (h2 : WF.WFGenome cfg.D cfg.ops p2)
+    (h : crossover p1 p2 draws = .ok ((c1, c2), rest)) :
+    WF.WFGenome cfg.D cfg.ops c1 ∧ WF.WFGenome cfg.D cfg.ops c2 ∧
+      c1.length = p1.length ∧ c2.length = p1.length ∧ p2.length = p1.length := by
+  obtain ⟨⟨w1, w2, l1, l2, l3, _⟩, _⟩ := post_crossover cfg p1 p2 h1 h2 draws (c1, c2) rest h
+  exact ⟨w1, w2, l1, l2, l3⟩
+
+/-- the children are the two recombinations at one cut point `1 ≤ cut < size - 1`; an `ok` result
+needs parents of equal length (numpy raises otherwise) -/
+theorem crossover_rows {p1 p2 c1 c2 : Stack} {draws rest : List Nat}
+    (h : crossover p1 p2 draws = .ok ((c1, c2), rest)) :
+    p2.length = p1.length ∧ ∃ cut, 1 ≤ cut ∧ cut < p1.length - 1 ∧ draws = cut :: rest ∧
+      c1 = p1.take cut ++ p2.drop cut ∧ c2 = p2.take cut ++ p1.drop cut := by
+  unfold crossover at h
+  obtain ⟨cut, ds', hd, h2⟩ := (bind_ok_iff _ _ _ _ _).mp h
+  obtain ⟨rfl, hlo, hhi⟩ := (drawRange_ok_iff _ _ _ _ _).mp hd
+  split at h2
+  · exact absurd h2 (raise_not_ok _ _ _)
+  · next hl =>
+    obtain ⟨e, rfl⟩ := (pure_ok_iff _ _ _ _).mp h2
+    cases e
+    exact ⟨by simpa using hl, cut, hlo, hhi, rfl, rfl, rfl⟩
+
+/-! ## 5. fork mutation -/
+
+/-- phase 1, `_move_utilized_commands`: a rearrangement of the parent's rows; the mutated command
+lies before the gap, the gap is as long as the number of unutilized rows -/
+theorem moveUtilizedCommands_post {s : Stack} {util : List Bool} {loc : Nat} {draws rest : List Nat}
+    {mv : Moved} (hlen : util.length = s.length) (hloc : util[loc]? = some true)
+    (h : moveUtilizedCommands s util loc draws = .ok (mv, rest)) :
+    mv.stack.length = s.length ∧ (∀ c ∈ mv.stack, c ∈ s) ∧
+      mv.mutatedCommandLocation < mv.startI ∧ mv.endI = mv.startI + util.count false - 1 :=
+  (post_moveUtilizedCommands s util loc hlen hloc draws mv rest h).1
+
+/-- phase 1 consumes no draw and returns a permutation of the parent's rows -/
+theorem moveUtilizedCommands_perm {s : Stack} {util : List Bool} {loc : Nat} {draws rest : List Nat}
+    {mv : Moved} (hlen : util.length = s.length)
+    (h : moveUtilizedCommands s util loc draws = .ok (mv, rest)) : mv.stack.Perm s ∧ rest = draws :=
+  VarLemmas.moveUtilizedCommands_perm hlen h
+
+/-- phase 2, `_fix_indices`: if every row is fine at *some* position (terminal rows, enabled operators
+with non-negative parameters), then afterwards every row is fine at its *own* position -/
+theorem fixIndices_post {s : Stack} {util : List Bool} {iv : List Nat} {draws rest : List Nat}
+    {s' : Stack} (hpre : ∀ c ∈ s, ∃ j, WF.rowOK cfg.D none (some cfg.ops) j c = true)
+    (h : fixIndices s util iv draws = .ok (s', rest)) :
+    s'.length = s.length ∧ ∀ i c, s'[i]? = some c → WF.rowOK cfg.D none (some cfg.ops) i c = true := by
+  obtain ⟨⟨hl, hr⟩, _⟩ := post_fixIndices cfg s util iv
+    (fun c hc => (hpre c hc).imp fun _ hj => rowOK_iff_spec.mp hj) draws s' rest h
+  exact ⟨hl, fun i c hi => rowOK_iff_spec.mpr (hr i c hi)⟩
+
+/-- phase 3, `_insert_fork`: only rows that are fine where they are written -/
+theorem insertFork_post (hcfg : CfgOK cfg) {s s' : Stack} {forkSize mcl startI endI : Nat}
+    {draws rest : List Nat} (hmcl : mcl < startI) (hend : startI + forkSize - 1 ≤ endI)
+    (hrows : ∀ i c, s[i]? = some c → WF.rowOK cfg.D none (some cfg.ops) i c = true)
+    (h : insertFork cfg s forkSize mcl startI endI draws = .ok (s', rest)) :
+    s'.length = s.length ∧ ∀ i c, s'[i]? = some c → WF.rowOK cfg.D none (some cfg.ops) i c = true := by
+  obtain ⟨⟨hl, hr⟩, _⟩ := post_insertFork cfg hcfg s forkSize mcl startI endI hmcl hend
+    (fun i c hi => rowOK_iff_spec.mp (hrows i c hi)) draws s' rest h
+  exact ⟨hl, fun i c hi => rowOK_iff_spec.mpr (hr i c hi)⟩
+
+theorem fork_wf (hcfg : CfgOK cfg) {parent child : Stack} {draws rest : List Nat}
+    (hwf : WF.WFGenome cfg.D cfg.ops parent)
+    (h : forkMutation cfg parent draws = .ok (child, rest)) :
+    WF.WFGenome cfg.D cfg.ops child ∧ child.length = parent.length :=
+  (post_forkMutation cfg hcfg parent hwf draws child rest h).1
+
+/-! ## 6. `AGraphMutation.__call__` -/
+
+theorem mutate_wf (hcfg : CfgOK cfg) {parent child : Stack} {draws rest : List Nat}
+    (hwf : WF.WFGenome cfg.D cfg.ops parent)
+    (h : mutate cfg parent draws = .ok (child, rest)) :
+    WF.WFGenome cfg.D cfg.ops child ∧ child.length = parent.length :=
+  (post_mutate cfg hcfg parent hwf draws child rest h).1
+
+/-! ## 7. draws -/
+
+/-- an `ok` draw is the head of the draw list and lies in the requested range -/
+theorem drawRange_in_bounds {lo hi d : Nat} {draws rest : List Nat}
+    (h : drawRange lo hi draws = .ok (d, rest)) : draws = d :: rest ∧ lo ≤ d ∧ d < hi :=
+  (drawRange_ok_iff lo hi draws d rest).mp h
+theorem drawBelow_in_bounds {hi d : Nat} {draws rest : List Nat}
+    (h : drawBelow hi draws = .ok (d, rest)) : draws = d :: rest ∧ d < hi :=
+  (drawBelow_ok_iff hi draws d rest).mp h
+theorem drawPmf_in_bounds {n d : Nat} {draws rest : List Nat}
+    (h : drawPmf n draws = .ok (d, rest)) : draws = d :: rest ∧ d < n :=
+  (drawPmf_ok_iff n draws d rest).mp h
+
+theorem generate_draws_consumed {size : Nat} {draws rest : List Nat} {s : Stack}
+    (h : generate cfg size draws = .ok (s, rest)) : rest <:+ draws := (sfx_generate cfg size).suffix h
+theorem command_draws_consumed {parent child : Stack} {draws rest : List Nat}
+    (h : mutateCommand cfg parent draws = .ok (child, rest)) : rest <:+ draws :=
+  (sfx_mutateCommand cfg parent).suffix h
+theorem node_draws_consumed {parent child : Stack} {draws rest : List Nat}
+    (h : mutateNode cfg parent draws = .ok (child, rest)) : rest <:+ draws :=
+  (sfx_mutateNode cfg parent).suffix h
+theorem param_draws_consumed {parent child : Stack} {draws rest : List Nat}
+    (h : mutateParameters cfg parent draws = .ok (child, rest)) : rest <:+ draws :=
+  (sfx_mutateParameters cfg parent).suffix h
+theorem prune_draws_consumed {parent child : Stack} {draws rest : List Nat}
+    (h : pruneBranch cfg parent draws = .ok (child, rest)) : rest <:+ draws :=
+  (sfx_pruneBranch cfg parent).suffix h
+theorem fork_draws_consumed {parent child : Stack} {draws rest : List Nat}
+    (h : forkMutation cfg parent draws = .ok (child, rest)) : rest <:+ draws :=
+  (sfx_forkMutation cfg parent).suffix h
+theorem mutate_draws_consumed {parent child : Stack} {draws rest : List Nat}
+    (h : mutate cfg parent draws = .ok (child, rest)) : rest <:+ draws :=
+  (sfx_mutate cfg parent).suffix h
+theorem crossover_draws_consumed {p1 p2 : Stack} {draws rest : List Nat} {c : Stack × Stack}
+    (h : crossover p1 p2 draws = .ok (c, rest)) : rest <:+ draws := (sfx_crossover p1 p2).suffix h
+
+/-! ## 8. progress of the rejection loops -/
+
+/-! ### command mutation -/
+
+/-- the loop of `_mutate_command` returns `new` for suitable draws iff `random_command(loc)` can return
+`new` and `new` is not rejected -/
+theorem commandLoop_returns_iff (loc : Nat) (old new : Cmd) :
+    (∃ fuel draws rest, mutateCommandLoop cfg loc old fuel draws = .ok (new, rest)) ↔
+      IsFreshCommand cfg loc new ∧ ¬ Rejected old new := by
+  constructor
+  · rintro ⟨fuel, ds, rest, h⟩; exact mutateCommandLoop_sound h
+  · rintro ⟨h1, h2⟩
+    obtain ⟨pre, hp⟩ := mutateCommandLoop_complete h1 h2 []
+    exact ⟨1, _, _, hp 0⟩
+
+/-- the loop can exit iff an acceptable row exists (`CanProgressCmd`, decidable) -/
+theorem commandLoop_progress_iff (loc : Nat) (old : Cmd) :
+    (∃ fuel draws r, mutateCommandLoop cfg loc old fuel draws = .ok r) ↔ CanProgressCmd cfg loc old :=
+  mutateCommandLoop_ok_iff cfg loc old
+
+/-- no acceptable row: whatever the draws and however long the loop is run, it never returns (it ends
+in `outOfDraws`, `badDraw` or a Python exception) -/
+theorem commandLoop_stuck {loc : Nat} {old : Cmd} (h : ¬ CanProgressCmd cfg loc old)
+    (fuel : Nat) (draws : List Nat) (r : Cmd × List Nat) :
+    mutateCommandLoop cfg loc old fuel draws ≠ .ok r :=
+  fun e => h ((mutateCommandLoop_ok_iff cfg loc old).mp ⟨fuel, draws, r, e⟩)
+
+/-- closed form for valid configurations: the loop is stuck exactly when there are no variables, the
+row is a CONSTANT and no operator command can be drawn at that row -/
+theorem commandLoop_progress_closed (hcfg : CfgOK cfg) (loc : Nat) (old : Cmd) :
+    CanProgressCmd cfg loc old ↔
+      1 ≤ cfg.D ∨ old.node ≠ Gen.OpDefs.CONSTANT ∨ (cfg.nLoad ≤ loc ∧ 1 ≤ loc ∧ cfg.ops ≠ []) :=
+  canProgressCmd_iff hcfg loc old
+
+/-- the degenerate family: `D = 0`, the row is a CONSTANT and only terminals can be drawn there -/
+theorem commandLoop_stuck_constant (hcfg : CfgOK cfg) {loc : Nat} {old : Cmd} (hD : cfg.D = 0)
+    (hold : old.node = Gen.OpDefs.CONSTANT) (hloc : loc < cfg.nLoad ∨ loc = 0 ∨ cfg.ops = [])
+    (fuel : Nat) (draws : List Nat) (r : Cmd × List Nat) :
+    mutateCommandLoop cfg loc old fuel draws ≠ .ok r := by
+  apply commandLoop_stuck
+  rw [canProgressCmd_iff hcfg]
+  rintro (h | h | ⟨h1, h2, h3⟩)
+  · omega
+  · exact h hold
+  · rcases hloc with h | h | h
+    · omega
+    · omega
+    · exact h3 h
+
+/-- `_mutate_command` can return `ok` iff some utilized row admits an acceptable replacement -/
+theorem command_progress_iff (parent : Stack) :
+    (∃ draws child rest, mutateCommand cfg parent draws = .ok (child, rest)) ↔
+      ∃ loc, CommandEligible parent loc ∧ CanProgressCommand cfg parent loc := by
+  constructor
+  · rintro ⟨ds, child, rest, h⟩
+    obtain ⟨u, d, ds1, loc, old, new, hu, _, hloc, hold, hf, hr, _⟩ := mutateCommand_ok_elim h
+    exact ⟨loc, ⟨u, hu, List.mem_of_getElem? hloc⟩, old, hold, new, hf, hr⟩
+  · rintro ⟨loc, ⟨u, hu, hmem⟩, old, hold, new, hf, hr⟩
+    obtain ⟨d, hd⟩ := List.mem_iff_getElem?.mp hmem
+    obtain ⟨pre, hp⟩ := mutateCommand_complete hu hd hold hf hr []
+    exact ⟨_, _, _, hp⟩
+
+/-- once the first draw has selected a row at which the loop cannot exit, no continuation of the draw
+list makes `_mutate_command` return -/
+theorem command_stuck {parent : Stack} {u : List Bool} {d loc : Nat}
+    (hu : Reduce.utilized parent = some u) (hd : (cmdIndices u)[d]? = some loc)
+    (hstuck : ¬ CanProgressCommand cfg parent loc) (draws : List Nat) (r : Stack × List Nat) :
+    mutateCommand cfg parent (d :: draws) ≠ .ok r := by
+  obtain ⟨child, rest⟩ := r
+  intro h
+  obtain ⟨u', d', ds1, loc', old, new, hu', e, hloc, hold, hf, hr, _⟩ := mutateCommand_ok_elim h
+  rw [hu] at hu'; cases hu'
+  cases e
+  rw [hd] at hloc; cases hloc
+  exact hstuck ⟨old, hold, new, hf, hr⟩
+
+/-! ### node mutation -/
+
+/-- the loop of `_mutate_node` returns `new` for suitable draws iff `NodeMutant cfg old new` -/
+theorem nodeLoop_returns_iff (hcfg : CfgOK cfg) (old new : Cmd) :
+    (∃ fuel draws rest, mutateNodeLoop cfg old fuel old draws = .ok (new, rest)) ↔
+      NodeMutant cfg old new := by
+  constructor
+  · rintro ⟨fuel, ds, rest, h⟩
+    exact (post_mutateNodeLoop_mutant cfg hcfg old fuel old ⟨rfl, fun _ => ⟨rfl, rfl⟩⟩ ds new rest h).1
+  · intro h
+    obtain ⟨pre, hp⟩ := mutateNodeLoop_complete h []
+    exact ⟨1, _, _, hp 0⟩
+
+theorem nodeLoop_progress_iff (hcfg : CfgOK cfg) (old : Cmd) :
+    (∃ fuel draws r, mutateNodeLoop cfg old fuel old draws = .ok r) ↔ CanProgressNodeCmd cfg old :=
+  mutateNodeLoop_ok_iff cfg hcfg old
+
+theorem nodeLoop_stuck (hcfg : CfgOK cfg) {old : Cmd} (h : ¬ CanProgressNodeCmd cfg old)
+    (fuel : Nat) (draws : List Nat) (r : Cmd × List Nat) :
+    mutateNodeLoop cfg old fuel old draws ≠ .ok r :=
+  fun e => h ((mutateNodeLoop_ok_iff cfg hcfg old).mp ⟨fuel, draws, r, e⟩)
+
+/-- closed form: a terminal row is stuck iff it is a CONSTANT and there are no variables; an operator
+row is stuck iff no *different* operator is enabled (also when the same operator was enabled twice, in
+which case `_get_random_node_mutation_location` does offer the row) -/
+theorem nodeLoop_progress_closed (old : Cmd) :
+    CanProgressNodeCmd cfg old ↔
+      (Ops.isTerminal old.node = some true ∧ (old.node ≠ Gen.OpDefs.CONSTANT ∨ 1 ≤ cfg.D)) ∨
+      (Ops.isTerminal old.node = some false ∧ ∃ op ∈ cfg.ops, op ≠ old.node) :=
+  canProgressNodeCmd_iff old
+
+theorem nodeLoop_stuck_constant (hcfg : CfgOK cfg) {old : Cmd} (hD : cfg.D = 0)
+    (hold : old.node = Gen.OpDefs.CONSTANT) (fuel : Nat) (draws : List Nat) (r : Cmd × List Nat) :
+    mutateNodeLoop cfg old fuel old draws ≠ .ok r := by
+  apply nodeLoop_stuck hcfg
+  rw [canProgressNodeCmd_iff]
+  rintro (⟨_, h | h⟩ | ⟨h, _⟩)
+  · exact h hold
+  · omega
+  · rw [hold, constant_facts.1] at h; cases h
+
+theorem nodeLoop_stuck_same_operator (hcfg : CfgOK cfg) {old : Cmd}
+    (hop : Ops.isTerminal old.node = some false) (hall : ∀ op ∈ cfg.ops, op = old.node)
+    (fuel : Nat) (draws : List Nat) (r : Cmd × List Nat) :
+    mutateNodeLoop cfg old fuel old draws ≠ .ok r := by
+  apply nodeLoop_stuck hcfg
+  rw [canProgressNodeCmd_iff]
+  rintro (⟨h, _⟩ | ⟨_, op, hm, hne⟩)
+  · rw [hop] at h; cases h
+  · exact hne (hall op hm)
+
+theorem node_progress_iff (hcfg : CfgOK cfg) (parent : Stack) :
+    (∃ draws child rest, mutateNode cfg parent draws = .ok (child, rest)) ↔
+      ∃ loc, NodeEligible cfg parent loc ∧ CanProgressNode cfg parent loc := by
+  constructor
+  · rintro ⟨ds, child, rest, h⟩
+    obtain ⟨u, d, ds1, loc, old, new, hu, _, hloc, hold, hm, _⟩ := mutateNode_ok_elim hcfg h
+    exact ⟨loc, ⟨u, hu, List.mem_of_getElem? hloc⟩, old, hold, new, hm⟩
+  · rintro ⟨loc, ⟨u, hu, hmem⟩, old, hold, new, hm⟩
+    obtain ⟨d, hd⟩ := List.mem_iff_getElem?.mp hmem
+    obtain ⟨pre, hp⟩ := mutateNode_complete hu hd hold hm []
+    exact ⟨_, _, _, hp⟩
+
+theorem node_stuck (hcfg : CfgOK cfg) {parent : Stack} {u : List Bool} {d loc : Nat}
+    (hu : Reduce.utilized parent = some u) (hd : (nodeIndices cfg parent u)[d]? = some loc)
+    (hstuck : ¬ CanProgressNode cfg parent loc) (draws : List Nat) (r : Stack × List Nat) :
+    mutateNode cfg parent (d :: draws) ≠ .ok r := by
+  obtain ⟨child, rest⟩ := r
+  intro h
+  obtain ⟨u', d', ds1, loc', old, new, hu', e, hloc, hold, hm, _⟩ := mutateNode_ok_elim hcfg h
+  rw [hu] at hu'; cases hu'
+  cases e
+  rw [hd] at hloc; cases hloc
+  exact hstuck ⟨old, hold, new, hm⟩
+
+/-! ### parameter mutation: never stuck on a well-formed parent -/
+
+/-- what `_get_random_param_mut_location` can return: a utilized row that is not a CONSTANT / INTEGER
+(nor a VARIABLE when `D ≤ 1`), and row 1 only if it is a terminal -/
+theorem param_location_eligible {parent : Stack} {draws rest : List Nat} {loc : Nat}
+    (h : randomParamMutLocation cfg parent draws = .ok (some loc, rest)) :
+    ParamEligible cfg parent loc :=
+  (post_randomParamMutLocation_eligible cfg parent draws (some loc) rest h).1 loc rfl
+
+/-- at every such row of a well-formed parent the rejection loop of `_mutate_parameters` can exit (in
+its first iteration, with a row different from the old one) -/
+theorem paramLoop_progress {parent : Stack} (hwf : WF.WFGenome cfg.D cfg.ops parent) {loc : Nat}
+    (hel : ParamEligible cfg parent loc) {old : Cmd} (hold : parent[loc]? = some old) :
+    ∃ new draws, new ≠ old ∧
+      ∀ fuel, mutateParametersLoop cfg loc old (fuel+1) old draws = .ok (new, []) := by
+  obtain ⟨new, pre, hne, hp⟩ := mutateParametersLoop_can_exit hwf hel hold []
+  exact ⟨new, pre ++ [], hne, hp⟩
+
+/-! ## 9. non-vacuity
+
+`D = 2`, one forced load row, operators `+ * sin`.
+`parent = X0, C, sin(X0) [unused], X1 [unused], X0*C, (X0*C)+(X0*C)`. -/
+
+def exCfg : Config := ⟨2, 1, [2, 4, 6]⟩
+def exParent : Stack := [⟨0,0,0⟩, ⟨1,-1,-1⟩, ⟨6,0,0⟩, ⟨0,1,1⟩, ⟨4,0,1⟩, ⟨2,4,4⟩]
+def exParent2 : Stack := [⟨0,1,1⟩, ⟨6,0,0⟩, ⟨1,-1,-1⟩, ⟨4,2,0⟩, ⟨2,0,2⟩, ⟨4,4,0⟩]
+/-- an unused operator row (`sin(row 2)`, row 3) that points above its new position after the move -/
+def exParent3 : Stack := [⟨0,0,0⟩, ⟨1,-1,-1⟩, ⟨4,0,1⟩, ⟨6,2,2⟩, ⟨0,1,1⟩, ⟨2,2,2⟩]
+
+example : CfgOK exCfg := by decide
+example : WF.WFGenome exCfg.D exCfg.ops exParent ∧ WF.WFGenome exCfg.D exCfg.ops exParent2 ∧
+    WF.WFGenome exCfg.D exCfg.ops exParent3 := by decide
+/-- two unutilized rows -/
+example : Reduce.utilized exParent = some [true, true, false, false, true, true] := by decide
+
+example : generate exCfg 4 [1, 0, 1, 2, 0, 0, 0, 0, 1, 0, 2, 1] =
+    .ok ([⟨0,0,0⟩, ⟨6,0,0⟩, ⟨1,-1,-1⟩, ⟨2,2,1⟩], []) := by decide
+example : WF.WFGenome exCfg.D exCfg.ops [⟨0,0,0⟩, ⟨6,0,0⟩, ⟨1,-1,-1⟩, ⟨2,2,1⟩] := by decide
+
+example : mutateCommand exCfg exParent [2, 1, 0, 3, 1] =
+    .ok ([⟨0,0,0⟩, ⟨1,-1,-1⟩, ⟨6,0,0⟩, ⟨0,1,1⟩, ⟨2,3,1⟩, ⟨2,4,4⟩], []) := by decide
+example : WF.WFGenome exCfg.D exCfg.ops
+    [⟨0,0,0⟩, ⟨1,-1,-1⟩, ⟨6,0,0⟩, ⟨0,1,1⟩, ⟨2,3,1⟩, ⟨2,4,4⟩] := by decide
+
+example : mutateNode exCfg exParent [3, 0, 1] =
+    .ok ([⟨0,0,0⟩, ⟨1,-1,-1⟩, ⟨6,0,0⟩, ⟨0,1,1⟩, ⟨4,0,1⟩, ⟨4,4,4⟩], []) := by decide
+example : WF.WFGenome exCfg.D exCfg.ops
+    [⟨0,0,0⟩, ⟨1,-1,-1⟩, ⟨6,0,0⟩, ⟨0,1,1⟩, ⟨4,0,1⟩, ⟨4,4,4⟩] := by decide
+
+/-- the first draw `(0, 0)` reproduces the old row and is rejected, the second is accepted -/
+example : mutateParameters exCfg exParent [1, 0, 1, 1, 1] =
+    .ok ([⟨0,0,0⟩, ⟨1,-1,-1⟩, ⟨6,0,0⟩, ⟨0,1,1⟩, ⟨4,1,1⟩, ⟨2,4,4⟩], []) := by decide
+example : WF.WFGenome exCfg.D exCfg.ops
+    [⟨0,0,0⟩, ⟨1,-1,-1⟩, ⟨6,0,0⟩, ⟨0,1,1⟩, ⟨4,1,1⟩, ⟨2,4,4⟩] := by decide
+
+example : pruneBranch exCfg exParent [0, 1] =
+    .ok ([⟨0,0,0⟩, ⟨1,-1,-1⟩, ⟨6,0,0⟩, ⟨0,1,1⟩, ⟨4,0,1⟩, ⟨2,1,1⟩], []) := by decide
+example : WF.WFGenome exCfg.D exCfg.ops
+    [⟨0,0,0⟩, ⟨1,-1,-1⟩, ⟨6,0,0⟩, ⟨0,1,1⟩, ⟨4,0,1⟩, ⟨2,1,1⟩] := by decide
+
+/-- fork at row 4: the two unutilized rows are overwritten by `X1` and `(X0*C) + X1` -/
+example : forkMutation exCfg exParent [2, 2, 0, 1, 1, 1, 3] =
+    .ok ([⟨0,0,0⟩, ⟨1,-1,-1⟩, ⟨4,0,1⟩, ⟨0,1,1⟩, ⟨2,2,3⟩, ⟨2,4,4⟩], []) := by decide
+example : WF.WFGenome exCfg.D exCfg.ops
+    [⟨0,0,0⟩, ⟨1,-1,-1⟩, ⟨4,0,1⟩, ⟨0,1,1⟩, ⟨2,2,3⟩, ⟨2,4,4⟩] := by decide
+
+/-- fork at row 0 of `exParent3`: `fixColumn` has to re-draw both parameters of the moved `sin` row
+(draws 3–6, the first of each pair being the extra call of `np.vectorize`) -/
+example : forkMutation exCfg exParent3 [2, 0, 0, 0, 0, 0, 0, 1, 0, 1] =
+    .ok ([⟨0,0,0⟩, ⟨1,-1,-1⟩, ⟨2,0,1⟩, ⟨1,-1,-1⟩, ⟨4,2,3⟩, ⟨2,4,4⟩], []) := by decide
+example : WF.WFGenome exCfg.D exCfg.ops
+    [⟨0,0,0⟩, ⟨1,-1,-1⟩, ⟨2,0,1⟩, ⟨1,-1,-1⟩, ⟨4,2,3⟩, ⟨2,4,4⟩] := by decide
+
+set_option maxRecDepth 8000 in
+/-- the arity-1 branch of `_insert_fork` (only `sin` enabled: 100 failed attempts to draw an arity-2
+operator) -/
+example : forkMutation ⟨2, 1, [6]⟩ [⟨0,0,0⟩, ⟨6,0,0⟩, ⟨6,1,1⟩, ⟨6,0,0⟩]
+      ([2, 0] ++ List.replicate 100 0 ++ [0, 0]) =
+    .ok ([⟨0,0,0⟩, ⟨6,0,0⟩, ⟨6,1,1⟩, ⟨6,2,2⟩], []) := by decide
+example : WF.WFGenome 2 [6] [⟨0,0,0⟩, ⟨6,0,0⟩, ⟨6,1,1⟩, ⟨6,0,0⟩] ∧
+    WF.WFGenome 2 [6] [⟨0,0,0⟩, ⟨6,0,0⟩, ⟨6,1,1⟩, ⟨6,2,2⟩] := by decide
+
+example : mutate exCfg exParent [4, 2, 2, 0, 1, 1, 1, 3] =
+    .ok ([⟨0,0,0⟩, ⟨1,-1,-1⟩, ⟨4,0,1⟩, ⟨0,1,1⟩, ⟨2,2,3⟩, ⟨2,4,4⟩], []) := by decide
+
+example : crossover exParent exParent2 [2] =
+    .ok (([⟨0,0,0⟩, ⟨1,-1,-1⟩, ⟨1,-1,-1⟩, ⟨4,2,0⟩, ⟨2,0,2⟩, ⟨4,4,0⟩],
+          [⟨0,1,1⟩, ⟨6,0,0⟩, ⟨6,0,0⟩, ⟨0,1,1⟩, ⟨4,0,1⟩, ⟨2,4,4⟩]), []) := by decide
+example : WF.WFGenome exCfg.D exCfg.ops [⟨0,0,0⟩, ⟨1,-1,-1⟩, ⟨1,-1,-1⟩, ⟨4,2,0⟩, ⟨2,0,2⟩, ⟨4,4,0⟩] ∧
+    WF.WFGenome exCfg.D exCfg.ops [⟨0,1,1⟩, ⟨6,0,0⟩, ⟨6,0,0⟩, ⟨0,1,1⟩, ⟨4,0,1⟩, ⟨2,4,4⟩] := by decide
+
+/-! ### progress: both sides occur -/
+
+/-- every utilized row of the example can be command-mutated and node-mutated -/
+example : ∀ loc ∈ [0, 1, 4, 5], CommandEligible exParent loc ∧ CanProgressCommand exCfg exParent loc ∧
+    NodeEligible exCfg exParent loc ∧ CanProgressNode exCfg exParent loc := by decide
+
+/-- no variables: a CONSTANT in the load rows can be neither command- nor node-mutated -/
+example : CfgOK ⟨0, 1, [2, 4, 6]⟩ ∧ WF.WFGenome 0 [2, 4, 6] [⟨1,-1,-1⟩, ⟨6,0,0⟩] ∧
+    CommandEligible [⟨1,-1,-1⟩, ⟨6,0,0⟩] 0 ∧ ¬ CanProgressCommand ⟨0, 1, [2, 4, 6]⟩ [⟨1,-1,-1⟩, ⟨6,0,0⟩] 0 ∧
+    NodeEligible ⟨0, 1, [2, 4, 6]⟩ [⟨1,-1,-1⟩, ⟨6,0,0⟩] 0 ∧
+    ¬ CanProgressNode ⟨0, 1, [2, 4, 6]⟩ [⟨1,-1,-1⟩, ⟨6,0,0⟩] 0 := by decide
+
+/-- hence: once the first draw selects row 0, command mutation never returns -/
+example (draws : List Nat) (r : Stack × List Nat) :
+    mutateCommand ⟨0, 1, [2, 4, 6]⟩ [⟨1,-1,-1⟩, ⟨6,0,0⟩] (0 :: draws) ≠ .ok r :=
+  command_stuck (u := [true, true]) (loc := 0) (by decide) (by decide) (by decide) draws r
+
+/-- the same operator enabled twice (`add_operator(2); add_operator("+")`): the row `X0 + X0` is offered
+by `_get_random_node_mutation_location` (two operators are enabled) but node mutation never returns -/
+example : CfgOK ⟨1, 1, [2, 2]⟩ ∧ WF.WFGenome 1 [2, 2] [⟨0,0,0⟩, ⟨2,0,0⟩] ∧
+    NodeEligible ⟨1, 1, [2, 2]⟩ [⟨0,0,0⟩, ⟨2,0,0⟩] 1 ∧
+    ¬ CanProgressNode ⟨1, 1, [2, 2]⟩ [⟨0,0,0⟩, ⟨2,0,0⟩] 1 := by decide
+
+example (draws : List Nat) (r : Stack × List Nat) :
+    mutateNode ⟨1, 1, [2, 2]⟩ [⟨0,0,0⟩, ⟨2,0,0⟩] (1 :: draws) ≠ .ok r :=
+  node_stuck (u := [true, true]) (loc := 1) (by decide) (by decide) (by decide) (by decide) draws r
+
 end Bingo.C04
